@@ -128,6 +128,41 @@ def mamba_bool(rng, depth):
     return f"(not {x})", f"(UnaryOp Not {xx})"
 
 
+def statement_form(out):
+    """A definition from an if-expression may be emitted as an if STATEMENT that assigns in both branches
+    (`if c: r = x` / `else: r = y`): valid Python with the same structure; rebuild the conditional expression
+    it stands for and judge that."""
+    import ast
+    try:
+        mod = ast.parse(out)
+    except SyntaxError as e:
+        return "SYNTAX", "emitted module does not parse: " + str(e)
+
+    def val(stmts):
+        if len(stmts) == 1 and isinstance(stmts[0], (ast.Assign, ast.AnnAssign)):
+            t = stmts[0].targets[0] if isinstance(stmts[0], ast.Assign) else stmts[0].target
+            if isinstance(t, ast.Name) and t.id == "r" and stmts[0].value is not None:
+                return stmts[0].value
+        if len(stmts) == 1 and isinstance(stmts[0], ast.If) and stmts[0].orelse:
+            return stmts[0]
+        return None
+
+    def sx(node):
+        if isinstance(node, ast.If):
+            a, b = val(node.body), val(node.orelse)
+            if a is None or b is None:
+                raise pyast.Outside("if statement that does not assign r in both branches")
+            return f"(IfExp {pyast.expr_sx(node.test, out)} {sx(a)} {sx(b)})"
+        return pyast.expr_sx(node, out)
+    for n in mod.body:
+        if isinstance(n, ast.If) and n.orelse:
+            try:
+                return "OK", sx(n)
+            except pyast.Outside as e:
+                return "SYNTAX", "no r = line (" + str(e) + ")"
+    return "SYNTAX", "no r = line"
+
+
 def run(tier, replay=None):
     ck = Check("C10", tier)
     quick = tier == "quick"
@@ -218,7 +253,7 @@ def run(tier, replay=None):
             break
     pm_ids = {f"p{i}": t for i, t in enumerate(pm_cases)}
     pm = run_sharded(DRIVER, [f"{i}\tpyparse\t{' '.join(t)}" for i, t in pm_ids.items()])
-    pm_ok, pm_bad = 0, []
+    pm_ok, pm_bad, pm_narrow = 0, [], []
     for i, t in pm_ids.items():
         text = " ".join(unhex(h) for h in t)
         st, got = pyast.parse_expr_sx(text)
@@ -227,10 +262,16 @@ def run(tier, replay=None):
             continue
         if (st == "OK" and r[0] == "OK" and r[1] == got) or (st == "SYNTAX" and r[0] == "NONE"):
             pm_ok += 1
+        elif st == "OK" and r[0] == "NONE":
+            # the model is a SUBSET of Python's expression grammar (it need only accept what the printer emits,
+            # e.g. it has no unparenthesised tuple inside a subscript): rejecting valid text cannot make the
+            # round-trip theorem say something false; counted, not an alarm
+            pm_narrow.append(text)
         else:
             pm_bad.append((text, f"python {st}:{got}", f"model {r}"))
     ck.cov["python_model_validation"] = {"cases": len(pm_ids), "agree": pm_ok, "disagree": len(pm_bad),
-                                         "examples": pm_bad[:3]}
+                                         "valid_python_outside_the_model": len(pm_narrow),
+                                         "examples": pm_bad[:3], "outside_examples": pm_narrow[:3]}
     if pm_bad:
         ck.broken.append({"kind": "python-model", "where": "PyExpr.pexp vs ast.parse", "examples": pm_bad[:3]})
 
@@ -260,8 +301,11 @@ def run(tier, replay=None):
         if r[0] != "OK":
             continue  # rejected inputs leave the premise unsatisfied
         out = unhex(r[1])
-        line = [l for l in out.splitlines() if l.startswith("r = ")]
-        st, got = pyast.parse_expr_sx(line[0][4:]) if line else ("SYNTAX", "no r = line")
+        line = [l for l in out.splitlines() if l.startswith("r = ") or l.startswith("r: ")]
+        if line:
+            st, got = pyast.parse_expr_sx(line[0].split(" = ", 1)[1])
+        else:
+            st, got = statement_form(out)
         if st == "OK" and got == sx:
             e2e_ok += 1
         else:
